@@ -292,7 +292,9 @@ def r6(run, db):
                 roots = flag_roots(dr, sw["discr"])
                 if any(any(e.endswith(":" + notify_name) for e in r.get("proj", [])) for r in roots):
                     te = flag_edge_for_value(dr, ssite, other_bool(notify_init))
-                    okgate = okgate or (te and dr.edge_dominates(te, site))
+                    # exactly when the flag is set: the event exists only behind that edge, and every path from it builds the event
+                    # (a further condition in between -- `notify && status < Stopping` -- loses cancellations)
+                    okgate = okgate or bool(te and dr.edge_dominates(te, site) and all_paths_from_edge_pass(dr, te, [site]))
         run.check(okgate, "drop|gated", "the cancellation event exists only when notify_on_cancel is set", "the cancellation event is not gated by notify_on_cancel (a failed start would notify)", dr.where())
     # notify_on_cancel writers: constructor (false) and mark_running (true)
     g = m.guard_adt()
